@@ -221,6 +221,37 @@ def strings(ctx, p):
             ctx.require(got == want and all(type(k) is type(w) for k, w in zip(sorted(got, key=str), sorted(want, key=str))), "labelled incidence matrix round trip changes labels of mixed type")
             ctx.require(all(any(n == m and type(n) is type(m) for m in H._node) for n in R._node), "labelled incidence matrix round trip changes the type of a node label")
             return
+        elif how.endswith("_mixed"):
+            # numbers and strings mixed among the node labels and the edge ids, through
+            # the other label-carrying representations
+            mixed_nodes = [nl[i] if i % 2 == 0 else 10 * i + 1 for i in range(N)]
+            mixed_edges = [el[j] if j % 2 == 0 else j for j in range(M)]
+            H = xgi.Hypergraph()
+            H.add_nodes_from(mixed_nodes)
+            for j in range(M):
+                H.add_edge([mixed_nodes[i] for i in edges[j]], idx=mixed_edges[j])
+            want = {e: set(m) for e, m in H._edge.items() if m}
+            if not want:
+                ctx.assume(False)
+            if how == "dataframe_mixed":
+                R = xgi.from_bipartite_pandas_dataframe(xgi.to_bipartite_pandas_dataframe(H), node_column="Node ID", edge_column="Edge ID")
+            elif how == "bipartite_edgelist_mixed":
+                R = xgi.from_bipartite_edgelist(xgi.to_bipartite_edgelist(H))
+            elif how == "hyperedge_dict_mixed":
+                R = xgi.from_hyperedge_dict(xgi.to_hyperedge_dict(H))
+            else:
+                G, nmap, emap = xgi.to_bipartite_graph(H, index=True)
+                R0 = xgi.from_bipartite_graph(G)
+                R = xgi.Hypergraph()
+                for e, m in R0._edge.items():
+                    R.add_edge([nmap[x] for x in m], idx=emap[e])
+            got = {e: set(m) for e, m in R._edge.items() if m}
+
+            def typed(d):
+                return sorted(((type(e).__name__, str(e)), sorted((type(n).__name__, str(n)) for n in m)) for e, m in d.items())
+
+            ctx.require(got == want and typed(got) == typed(want), f"{how[:-6]} round trip changes labels of mixed type (value or type)")
+            return
         elif how == "collision":
             H.add_node(7)
             H.add_node("7")
@@ -336,7 +367,7 @@ def spec(tier, seed):
                 units.append(("C10.cross", {"cls": cls, "shape": s, "how": how, "attrs": False}))
                 units.append(("C10.cross", {"cls": cls, "shape": s, "how": how, "form": "function"}))
     for s in shapes.shapes_H(2, 2) + shapes.shapes_H(3, 1):
-        for how in ("hypergraph_dict", "hif_dict", "collision", "incidence_mixed"):
+        for how in ("hypergraph_dict", "hif_dict", "collision", "incidence_mixed", "dataframe_mixed", "bipartite_edgelist_mixed", "hyperedge_dict_mixed", "bipartite_graph_mixed"):
             units.append(("C10.strings", {"cls": "H", "shape": s, "how": how}))
     small = shapes.shapes_H_upto(2, 1) + shapes.shapes_H(0, 2) + shapes.shapes_H(1, 2)[:2]
     for s in shapes.shapes_H_upto(2, 2):
